@@ -53,13 +53,14 @@ def lib_fns(db):
 
 
 def var_side(cond, is_bound):
-    for n, _ in walk(cond):
+    from ..db import walk_x, deref_let
+    for n, _ in walk_x(cond):
         c = cmp_atom(n)
         if c:
             op, l, r = c
-            if is_bound(peel_casts(r)):
+            if is_bound(peel_casts(r)) or is_bound(peel_casts(deref_let(peel_casts(r)))):
                 return l
-            if is_bound(peel_casts(l)):
+            if is_bound(peel_casts(l)) or is_bound(peel_casts(deref_let(peel_casts(l)))):
                 return r
     return None
 
